@@ -751,10 +751,10 @@ class PyvalColorizer:
         indent = state.charpos
         
         try:
-            # Can raise ValueError or re.error
+            # Can raise ValueError, OverflowError (repetition number too large) or re.error
             # Value of type variable "AnyStr" cannot be "Union[bytes, str]": Yes it can.
             self._colorize_re_pattern_str(pat, state) #type:ignore[type-var]
-        except (ValueError, sre_constants.error) as e:
+        except (ValueError, OverflowError, sre_constants.error) as e:
             # Make sure not to swallow control flow errors.
             # Colorize the ast.Call as any other node if the pattern parsing fails.
             state.restore(mark)
